@@ -309,6 +309,8 @@ type htlcWorkload struct {
 	// GenesisBorn > 0: the chain's genesis already holds that many open ordinary contracts (hash locks written in upper,
 	// lower and mixed case hex, all of which genesis validation accepts); GenesisBase is the chain's initial height
 	GenesisBorn int
+	// Crowd: once in the history more than a hundred ordinary contracts are created in one block with one time lock
+	Crowd bool
 	GenesisBase int64
 	genBorn     []*htBook
 	delisted    []htlctypes.AssetParam // assets the delist script took off the parameter list, to be put back
@@ -518,6 +520,9 @@ func (w *htlcWorkload) Attach(run *ev.Run, r *rig.Rig) {
 	w.script = append(w.script, htScript{Type: "plain", Fate: "bucket"}, htScript{Type: "mixed", Fate: "bucket"},
 		htScript{Type: "incoming", Fate: "fast", Arg: "tl"}, htScript{Type: "params", Fate: "limit-tighten"})
 	w.rng.Shuffle(len(w.script), func(i, j int) { w.script[i], w.script[j] = w.script[j], w.script[i] })
+	if w.Crowd && len(w.script) > 6 {
+		w.script = append(w.script[:6], append([]htScript{{Type: "plain", Fate: "crowd"}}, w.script[6:]...)...)
+	}
 	// contracts that came in through genesis: known to the book with their secrets, fates scheduled like any other
 	for _, b := range w.genBorn {
 		for i, a := range r.Accounts {
@@ -1184,10 +1189,19 @@ func (w *htlcWorkload) createBadHTLT(st *htState) []rig.Tx {
 
 // bucket: several contracts that expire at the same height (same block, same lock), with mixed fates.
 func (w *htlcWorkload) bucket(st *htState, typ string) []rig.Tx {
-	n := 3 + w.rng.Intn(4)
+	return w.bucketN(st, typ, 3+w.rng.Intn(4))
+}
+
+// bucketN: n contracts created in one block with one time lock, i.e. falling due together (a crowd of more than a hundred
+// when the script asks for it: whatever a block does per due item, it has to do for all of them at that height)
+func (w *htlcWorkload) bucketN(st *htState, typ string, n int) []rig.Tx {
 	lock := uint64(50 + w.rng.Intn(4))
 	var txs []rig.Tx
 	fates := []string{"refund", "Em1", "atE", "early", "refund", "refund"}
+	if n > 100 {
+		// a crowd stays: more than a hundred contracts are still open when their height comes, a few are claimed in that block
+		fates = []string{"refund", "refund", "refund", "atE", "refund", "refund", "refund", "refund"}
+	}
 	for i := 0; i < n; i++ {
 		f := fates[i%len(fates)]
 		switch {
@@ -1668,6 +1682,9 @@ func (w *htlcWorkload) scripted(st *htState) []rig.Tx {
 		txs = w.createIncoming(st, "fast", 0, s.Arg)
 	case s.Fate == "bucket":
 		txs = w.bucket(st, s.Type)
+	case s.Fate == "crowd":
+		txs = w.bucketN(st, "plain", 125+w.rng.Intn(30))
+		w.run.Count("crowd-of-more-than-a-hundred-contracts-due-together", 1)
 	case s.Type == "plain":
 		txs = w.createPlain(st, s.Fate, 0)
 	case s.Type == "incoming":
@@ -2100,6 +2117,7 @@ func runHTLC(run *ev.Run, c int, mode string) {
 	if c%2 == 1 {
 		w.GenesisBorn, w.GenesisBase = 5, boundaryHeight(c)
 	}
+	w.Crowd = c%4 == 2
 	bal := sdk.NewCoins()
 	for _, dn := range []string{rig.BondDenom, "tka", "tkb"} {
 		bal = bal.Add(sdk.NewCoin(dn, toInt(pow2(150))))
@@ -2571,6 +2589,9 @@ func (d *htDirector) beginBlock(br *rig.BlockRecord, pb, ob *htSnap) {
 					c.State, c.Closed = htlctypes.Refunded, h
 					c.Outflows = append(c.Outflows, fmt.Sprintf("refund@%d", h))
 					run.Count("refund-"+c.typ(), 1)
+					if n := int64(len(d.byExpiry[h])); n > run.Counters["most-contracts-falling-due-at-one-height"] {
+						run.Counters["most-contracts-falling-due-at-one-height"] = n
+					}
 					if c.Timestamp == 0 {
 						run.Count("refund-ts0", 1)
 					}
